@@ -312,7 +312,13 @@ impl Go {
                 let struct_name = self.acronyms_to_uppercase(&shared.id.renamed);
                 let content_field = content_key.to_string().to_camel_case();
                 let tag_field = self.format_field_name(tag_key.to_string(), true);
-                let struct_short_name = shared.id.original[..1].to_lowercase();
+                let struct_short_name = shared
+                    .id
+                    .original
+                    .chars()
+                    .take(1)
+                    .collect::<String>()
+                    .to_lowercase();
                 let variant_key_type = format!(
                     "{}{}s",
                     struct_name,
